@@ -35,6 +35,10 @@ func enumSeq(depth, nletters, shard, nshards int, f func(seq []int)) {
 
 var errStream = errors.New("stream-error")
 
+type readerAtFunc func(p []byte, off int64) (int, error)
+
+func (f readerAtFunc) ReadAt(p []byte, off int64) (int, error) { return f(p, off) }
+
 type scriptRW struct {
 	calls int
 	resp  func(call int, p []byte) (int, error)
@@ -134,6 +138,99 @@ func init() {
 					rep.Sample(hist)
 				}
 			})
+			rep.Class("sequences")
+		},
+	})
+
+	eng.Register(&eng.Scenario{
+		Name: "ioseek-faults", Props: []string{"C20"}, NoRace: true,
+		Doc: "ioseek.ReaderAtSeeker over a wrapped ReaderAt that, on its k-th call (every k), returns a partial read together with a non-EOF error or a short read without error: every sequence of 3 (4 thorough) calls over Seek / Read; position and data follow the offset+slice model (the position advances by the returned count)",
+		Direct: func(rep *eng.DirectReport, shard, nshards int, thorough bool) {
+			data := []byte{10, 11, 12, 13, 14, 15, 16, 17}
+			type letter struct {
+				seek   bool
+				off    int64
+				whence int
+				n      int
+			}
+			var letters []letter
+			for _, off := range []int64{-1, 0, 2, 3} {
+				for wh := 0; wh < 3; wh++ {
+					letters = append(letters, letter{seek: true, off: off, whence: wh})
+				}
+			}
+			for _, n := range []int{1, 3, 5} {
+				letters = append(letters, letter{n: n})
+			}
+			depth := 3
+			if thorough {
+				depth = 4
+			}
+			for faultAt := 1; faultAt <= depth; faultAt++ {
+				for mode := 0; mode < 2; mode++ {
+					faultAt, mode := faultAt, mode
+					enumSeq(depth, len(letters), shard, nshards, func(seq []int) {
+						rep.Cases++
+						calls := 0
+						var faulted bool
+						ra := readerAtFunc(func(p []byte, off int64) (int, error) {
+							calls++
+							n, err := bytes.NewReader(data).ReadAt(p, off)
+							if calls == faultAt && n > 1 {
+								faulted = true
+								if mode == 0 {
+									return n - 1, errStream // partial read with an error
+								}
+								return n - 1, io.ErrUnexpectedEOF
+							}
+							return n, err
+						})
+						r := ioseek.NewReaderAtSeeker(ra, int64(len(data)))
+						pos := int64(0)
+						hist := fmt.Sprintf("fault on ReadAt #%d mode %d: ", faultAt, mode)
+						for _, li := range seq {
+							l := letters[li]
+							if l.seek {
+								hist += fmt.Sprintf("Seek(%d,%d) ", l.off, l.whence)
+								np := l.off
+								if l.whence == io.SeekCurrent {
+									np = pos + l.off
+								} else if l.whence == io.SeekEnd {
+									np = int64(len(data)) + l.off
+								}
+								got, err := r.Seek(l.off, l.whence)
+								if np < 0 || np > int64(len(data)) {
+									if err == nil {
+										rep.Fail("C20.seek-accepts-out-of-range", fmt.Sprintf("Seek returned (%d,nil) for an out-of-range target", got), hist)
+										return
+									}
+								} else {
+									if err != nil || got != np {
+										rep.Fail("C20.seek-result", fmt.Sprintf("Seek returned (%d,%v), model %d", got, err, np), hist)
+										return
+									}
+									pos = np
+								}
+							} else {
+								hist += fmt.Sprintf("Read(%d) ", l.n)
+								buf := make([]byte, l.n)
+								got, _ := r.Read(buf)
+								if got < 0 || pos+int64(got) > int64(len(data)) || !bytes.Equal(buf[:got], data[pos:pos+int64(got)]) {
+									rep.Fail("C20.read-data", fmt.Sprintf("Read returned %d bytes %v at position %d", got, buf[:got], pos), hist)
+									return
+								}
+								pos += int64(got) // like io.SectionReader: the position advances by the returned count
+							}
+						}
+						if faulted {
+							rep.Nontrivial++
+						}
+						if rep.Cases == 321 {
+							rep.Sample(hist)
+						}
+					})
+				}
+			}
 			rep.Class("sequences")
 		},
 	})
